@@ -8,7 +8,7 @@ from mingus.containers import Note, NoteContainer
 from mingus.core import progressions, chords
 
 ID = "C12"
-LEAN_MODULES = ["Mingus.Props.C12", "Mingus.Tie.C12"]
+LEAN_MODULES = ["Mingus.Props.C12", "Mingus.Props.C12Interval", "Mingus.Tie.C12"]
 RULE = ("every operation sequence of depth <=3 (quick) / <=4 (thorough) over an 18-op alphabet (octave 0 included) of add/remove forms (objects, bare "
         "names, names with octave, lists, other containers, '+', remove by name / name+octave / note / list, remove_notes and '-' given one note, one name or a list), seeded random "
         "sequences up to depth 40 over a larger pool incl. B#/Cb-type names; every chord shorthand x 21 roots, interval "
@@ -229,6 +229,8 @@ def cases(tier, rng):
         for sh in ["1", "2", "b3", "3", "4", "#4", "5", "b6", "6", "b7", "7", "bb2", "#1", "b2", "bb3", "#5"]:
             for up in (True, False):
                 yield Case("nc.from_interval", [nm, 4, sh, up], "from_interval", kind=("interval",))
+                if nm in ("C", "D", "F#") and sh in ("3", "5", "b7", "2"):
+                    yield Case("nc.from_interval", [nm, 0, sh, up], "from_interval/octave-0", kind=("interval",))
                 if sh in ("3", "b7", "5", "#4"):
                     yield Case("nc.from_interval_short", [nm, 4, sh, up], "from_interval/shortcut", model=False, kind=("interval",))
     for key in ["C", "F#", "Eb", "a", "c#", "ab", "d", "A", "D"]:
